@@ -400,21 +400,21 @@ def r6_kernel_retry(ctx):
             out.append(violated("C02.R6", "openat2::resolve:exhaustion", t.where(), "exhausted EAGAIN retries do not end in a SafetyViolation error"))
     else:
         out.append(unproven("C02.R6", "openat2::resolve:exhaustion", t.where(), "cannot find the loop exhaustion edge"))
-    # only EAGAIN continues the loop
-    back = [e for e in cfg.back_edges() if e.dst == h]
+    # only EAGAIN continues the loop (errno switch arms and if-chains on a hoisted errno alike)
+    from ..cut import errno_branches
     re_ = result_edges(b, t)
     cont_errnos = set()
+    outside = [x for x in range(cfg.n) if x not in blks]
     if re_ and re_["err"]:
-        # find the errno switch reachable from the error edge inside the loop
-        for x in cfg.edge_targets_reachable(re_["err"], cut_nodes=[h]):
-            tt = b.blocks[x].term
-            if tt.kind == "switch" and x in blks and tt.raw["dty"] == "i32":
-                for e in cfg.succ.get(x, []):
-                    r2 = cfg.edge_targets_reachable([e], cut_nodes=[])
-                    # does this arm return to the loop header without leaving?
-                    inner = cfg.edge_targets_reachable([e], cut_nodes=[x for x in range(cfg.n) if x not in blks])
-                    if h in inner:
-                        cont_errnos.add(e.label[1])
+        after = cfg.edge_targets_reachable(re_["err"], cut_nodes=[h])
+        brs = [br for br in errno_branches(b, T) if br["bb"] in after and br["bb"] in blks]
+        for br in brs:
+            if h in cfg.edge_targets_reachable(br["eq"], cut_nodes=outside):
+                cont_errnos.add(br["errno"])
+        # no way back to the header from the error edge other than through an EAGAIN arm
+        eagain_eq = [e.key() for br in brs if br["errno"] == EAGAIN for e in br["eq"]]
+        if h in cfg.edge_targets_reachable(re_["err"], cut_nodes=outside, cut_edges=eagain_eq):
+            cont_errnos.add("any")
     if cont_errnos == {EAGAIN}:
         out.append(holds("C02.R6", "openat2::resolve:eagain-only", t.where(), "only EAGAIN re-enters the retry loop"))
     else:
